@@ -791,6 +791,12 @@ var (
 	sepClasses = []string{"space", "semicolon", "semicolon-space", "mixed"}
 )
 
+// connection strings of the password-long section per tier
+const (
+	pwdLongQuick    = 16 * 16 * 3 * 16
+	pwdLongThorough = 16 * 16 * 3 * 400
+)
+
 const alnum = "ABCDEFGHIJKLMNOPQRSTUVWXYZabcdefghijklmnopqrstuvwxyz0123456789"
 
 func core(r *vlib.Rand, tag string) string {
@@ -817,9 +823,41 @@ type connString struct {
 	Near     []string // values under near-miss keys (not passwords)
 	Tokens   []string
 	HasEqVal bool
+	Beyond31 int // password tokens with 32 or more tokens in front of them
 }
 
-func buildConn(r *vlib.Rand, tag string) connString {
+// connShape says how many tokens a connection string has and where its password tokens are.
+type connShape struct {
+	before, after int  // tokens before / after the designated password token
+	first, last   bool // further password tokens in the first / last position
+	extraDen      int  // every other token is a password token with chance 1/extraDen (0: never)
+	long          string
+	longLen       int
+}
+
+// tokenClasses: numbers of tokens before and after the designated password token (around the
+// powers of two a bounded split, a fixed array or a length byte would use)
+var tokenClasses = []int{0, 1, 2, 15, 16, 17, 31, 32, 33, 63, 64, 65, 127, 128, 129, 200}
+
+// longModes: where a long text sits ("" = nowhere): in the value / the key of an ordinary
+// token, behind / in front of the marker in the designated password value, or spread over
+// every token. pwdLongLens are capped by what the 16-bit length of the field leaves.
+var (
+	pwdLongModes = []string{"value", "key", "pwd-tail", "pwd-head", "all-medium"}
+	pwdLongLens  = []int{255, 256, 1024, 4096, 32767, 32768, 65535}
+)
+
+// maxTokenBytes bounds a token without long text plus its joint: key <= 16, blanks around
+// '=' <= 3, a decorated marker value <= ~60.
+const maxTokenBytes = 96
+
+func smallShape(r *vlib.Rand) connShape {
+	n := r.Range(1, 8)
+	at := r.Intn(n)
+	return connShape{before: at, after: n - 1 - at, extraDen: 12}
+}
+
+func buildConn(r *vlib.Rand, tag string, sh connShape) connString {
 	cs := connString{Class: sepClasses[r.Intn(len(sepClasses))]}
 	semi := cs.Class != "space" && cs.Class != "mixed"
 	// characters a value may contain besides letters: '=' always; the OTHER grammar's
@@ -849,19 +887,52 @@ func buildConn(r *vlib.Rand, tag string) connString {
 		}
 		return v
 	}
-	n := r.Range(1, 8)
-	pwAt := r.Intn(n)
+	n := sh.before + 1 + sh.after
+	pwAt := sh.before
+	// what the 16-bit length of the Dbc field leaves for long text
+	budget := 65535 - n*maxTokenBytes - 16
+	longLen := sh.longLen
+	if longLen > budget {
+		longLen = budget
+	}
+	if longLen < 0 {
+		longLen = 0
+	}
+	fill := func(m int) string {
+		b := make([]byte, m)
+		for i := range b {
+			b[i] = alnum[r.Intn(len(alnum))]
+		}
+		return string(b)
+	}
+	type tok struct {
+		key, eq, val string
+		pw           bool
+	}
+	toks := make([]tok, 0, n)
 	var used []string
 	for i := 0; i < n; i++ {
 		var key, val string
 		exact, plain := -1, false
-		switch x := r.Intn(12); {
-		case i == pwAt || x == 0:
+		isPw := i == pwAt || (sh.first && i == 0) || (sh.last && i == n-1) || (sh.extraDen > 0 && r.Intn(sh.extraDen) == 0)
+		switch x := 1 + r.Intn(11); {
+		case isPw:
 			key = "password"
-			m := core(r, tag+strconv.Itoa(i))
+			m := core(r, tag+"t"+strconv.Itoa(i))
 			val = decorate(m)
+			if i == pwAt && longLen > 0 {
+				switch sh.long {
+				case "pwd-tail":
+					val += fill(longLen)
+				case "pwd-head":
+					val = fill(longLen) + val
+				}
+			}
 			cs.Exact = append(cs.Exact, marker{m, strings.ContainsAny(val, " \t")})
 			exact = len(cs.Exact) - 1
+			if i >= 32 {
+				cs.Beyond31++
+			}
 		case x == 1:
 			key = caseVariant[r.Intn(len(caseVariant))]
 			m := core(r, tag+"c"+strconv.Itoa(i))
@@ -889,7 +960,9 @@ func buildConn(r *vlib.Rand, tag string) connString {
 			if len(used) > 0 && r.Intn(3) == 0 {
 				key = used[r.Intn(len(used))]
 			}
-			used = append(used, key)
+			if len(used) < 64 {
+				used = append(used, key)
+			}
 		}
 		eq := "="
 		if semi && r.Intn(4) == 0 {
@@ -898,7 +971,38 @@ func buildConn(r *vlib.Rand, tag string) connString {
 				cs.Exact[exact].Blanks = true
 			}
 		}
-		cs.Tokens = append(cs.Tokens, key+eq+val)
+		toks = append(toks, tok{key, eq, val, isPw})
+	}
+	// long text in ordinary tokens (a password token keeps its key, and its value was made above)
+	if longLen > 0 {
+		var ord []int
+		for i, t := range toks {
+			if !t.pw {
+				ord = append(ord, i)
+			}
+		}
+		switch sh.long {
+		case "value":
+			if len(ord) > 0 {
+				toks[ord[r.Intn(len(ord))]].val += fill(longLen)
+			}
+		case "key":
+			if len(ord) > 0 {
+				j := ord[r.Intn(len(ord))]
+				toks[j].key = fill(longLen) + toks[j].key
+			}
+		case "all-medium":
+			m := longLen / n
+			if m > 300 {
+				m = 300
+			}
+			for _, j := range ord {
+				toks[j].val += fill(r.Range(0, m))
+			}
+		}
+	}
+	for _, t := range toks {
+		cs.Tokens = append(cs.Tokens, t.key+t.eq+t.val)
 	}
 	var sb strings.Builder
 	joint := func() string {
@@ -931,8 +1035,12 @@ func buildConn(r *vlib.Rand, tag string) connString {
 	return cs
 }
 
-func pwdOne(c *vlib.Ctx, k *packKind, ver int32, r *vlib.Rand, tag string) {
-	cs := buildConn(r, tag)
+func pwdOne(c *vlib.Ctx, k *packKind, ver int32, r *vlib.Rand, tag string, sh connShape, long bool) {
+	cs := buildConn(r, tag, sh)
+	if len(cs.Text) > 65535 {
+		c.Count("pwd_strings_over_the_field_limit_skipped", 1)
+		return
+	}
 	mk := func() udp.UdpPack {
 		p := k.New(ver)
 		e := elemOf(p)
@@ -995,6 +1103,32 @@ func pwdOne(c *vlib.Ctx, k *packKind, ver int32, r *vlib.Rand, tag string) {
 	c.Count("pwd_cases", 1)
 	c.Count("pwd_class_"+cs.Class, 1)
 	c.Count("pwd_family_"+family(ver), 1)
+	c.Count("pwd_tokens", int64(len(cs.Tokens)))
+	c.Count("pwd_password_tokens_behind_32_or_more_tokens", int64(cs.Beyond31))
+	if len(cs.Exact) >= 2 {
+		c.Count("pwd_cases_with_several_password_tokens", 1)
+	}
+	if long {
+		c.Count("pwd_long_cases", 1)
+		c.Count("pwd_long_class_"+cs.Class, 1)
+		c.Count("pwd_long_markers_checked", 2*int64(len(cs.Exact)))
+		c.Count("pwd_long_text_bytes", int64(len(cs.Text)))
+		c.Max("max_pwd_tokens", int64(len(cs.Tokens)))
+		c.Max("max_pwd_text_bytes", int64(len(cs.Text)))
+		c.SetAdd("pwd_long_token_shapes_before_x_after", fmt.Sprintf("%d+1+%d", sh.before, sh.after))
+		if sh.long != "" {
+			c.Count("pwd_long_text_"+sh.long, 1)
+			if len(cs.Text) >= 32768 {
+				c.Count("pwd_long_strings_of_32KiB_or_more", 1)
+			}
+		}
+		if sh.first {
+			c.Count("pwd_long_password_token_first", 1)
+		}
+		if sh.last {
+			c.Count("pwd_long_password_token_last", 1)
+		}
+	}
 	c.DistinctStr("pwd/" + k.Name + "/" + strconv.Itoa(int(ver)) + "/" + cs.Text)
 	pick := r.Intn(50) == 0 // drawn unconditionally: the case stream must not depend on what was sampled before
 	if pick && c.WantSample() && len(cs.Tokens) >= 3 {
@@ -1015,6 +1149,7 @@ func main() {
 		// the race flavour exists for the concurrent pool monitor only (the other monitors
 		// are single-goroutine: the race detector has nothing to see there)
 		poolConcSection(c)
+		heldSections(c)
 		c.Finish()
 		fmt.Println("done")
 		return
@@ -1056,6 +1191,9 @@ func main() {
 	poolSection(c)
 	poolConcSection(c)
 
+	// 4. held results, multi-object histories (held.go)
+	heldSections(c)
+
 	// 3. password masking
 	var sqlKinds []*packKind
 	for _, n := range []string{"UdpTxSqlPack", "UdpTxSqlParamPack", "UdpTxDbcPack"} {
@@ -1067,15 +1205,42 @@ func main() {
 			n := i*perCase + j
 			k := sqlKinds[n%len(sqlKinds)]
 			ver := pwdVersions[(n/len(sqlKinds))%len(pwdVersions)]
-			pwdOne(c, k, ver, r, strconv.Itoa(n))
+			pwdOne(c, k, ver, r, strconv.Itoa(n), smallShape(r), false)
 		}
 		c.Eval(perCase - 1)
+	})
+	// 3b. the same oracle on connection strings of up to 401 tokens: every pair of token-count
+	// classes (before x after the designated password token) in turn, the type, version,
+	// separator class, further password tokens and long texts drawn
+	nc := len(tokenClasses)
+	const perLong = 8
+	c.Cases("password-long", c.N(pwdLongQuick, pwdLongThorough)/perLong, func(i int, r *vlib.Rand) {
+		for j := 0; j < perLong; j++ {
+			n := i*perLong + j
+			sh := connShape{before: tokenClasses[n%nc], after: tokenClasses[(n/nc)%nc]}
+			k := sqlKinds[(n/(nc*nc))%len(sqlKinds)]
+			ver := pwdVersions[r.Intn(len(pwdVersions))]
+			sh.first, sh.last = r.Intn(4) == 0, r.Intn(4) == 0
+			sh.extraDen = []int{0, 0, 12, 40}[r.Intn(4)]
+			if r.Intn(3) == 0 {
+				sh.long = pwdLongModes[r.Intn(len(pwdLongModes))]
+				sh.longLen = pwdLongLens[r.Intn(len(pwdLongLens))]
+			}
+			pwdOne(c, k, ver, r, "L"+strconv.Itoa(n), sh, true)
+		}
+		c.Eval(perLong - 1)
 	})
 
 	if c.Only == "" {
 		c.Floor("agree_fills", int64(len(kinds)*nv*fills/10/c.NShards), c.Counter("agree_fills"))
 		c.Floor("carried_fields_checked", int64(len(kinds)*nv*fills/2/c.NShards), c.Counter("carried_fields_checked"))
 		c.Floor("pwd_markers_checked", int64(c.N(400000, 8000000)/10/c.NShards), c.Counter("pwd_markers_checked"))
+		nl := int64(c.N(pwdLongQuick, pwdLongThorough) / c.NShards)
+		c.Floor("pwd_long_cases", nl/2, c.Counter("pwd_long_cases"))
+		c.Floor("pwd_long_markers_checked", nl, c.Counter("pwd_long_markers_checked"))
+		c.Floor("pwd_password_tokens_behind_32_or_more_tokens", nl/4, c.Counter("pwd_password_tokens_behind_32_or_more_tokens"))
+		c.Floor("pwd_cases_with_several_password_tokens", nl/4, c.Counter("pwd_cases_with_several_password_tokens"))
+		c.Floor("pwd_long_strings_of_32KiB_or_more", nl/200, c.Counter("pwd_long_strings_of_32KiB_or_more"))
 		if os.Getenv("VERIF_WRITE_SPEC") != "1" {
 			c.Floor("spec_comparisons", int64(len(kinds)*nv*fills/10/c.NShards), c.Counter("spec_comparisons"))
 		}
